@@ -57,7 +57,7 @@ def run(chk, repo):
     S, E, X = Aff.sym('S'), Aff.sym('E'), Aff.sym('index')
 
     # ------------------------------------------------------------------ a
-    chk.rule('C11.a', 'R-AFFINE-INV: gene<->genomic conversions are the definitional affine maps, inverse on both strands', 8)
+    chk.rule('C11.a', 'R-AFFINE-INV: gene<->genomic conversions are the definitional affine maps, inverse on both strands', 7)
     g2gene = repo.func(GA + 'coordinate_genomic_to_gene')
     gene2g = repo.func(GA + 'coordinate_gene_to_genomic')
     chk.uses(g2gene, gene2g)
@@ -361,6 +361,11 @@ def run(chk, repo):
         pointer_byte_range(chk, repo, 'C11.l', f'gtf.GTFPointer:{cls_}.load', f"{cls_}.load")
     ln_ = repo.func('gtf.GTFPointer:GTFPointer.__len__')
     chk.ob('C11.l', 'pointer length = end - start', ln_.where, unparse(ln_.node.body[-1]) == 'return self.end - self.start', 'GTFPointer.__len__ altered', key=ln_.qual, fn=ln_.qual)
+    chk.clauses.append('C11.m get_cds_start_index returns the transcript index of the first CDS base (exon lengths in front of it + offset inside its exon) + frame, on both strands')
+    cds_start_loops(chk, repo, 'C11.m')
+    from rules.shared import coord_slice
+    chk.clauses.append('C11.n slicing a DNA / amino-acid record that carries matched locations keeps exactly the intersection of each overlapped location with the slice (query re-based to the slice, ref advanced accordingly)')
+    coord_slice(chk, repo, 'C11.n', ['dna.DNASeqRecord:DNASeqRecordWithCoordinates.__getitem__', 'aa.AminoAcidSeqRecord:AminoAcidSeqRecordWithCoordinates.__getitem__'])
 
 def exon_loop_inverse(chk, repo, rid):
     """E8: per-iteration affine summaries of the two exon loops, decided over cone domains (see sa/loops.py)"""
@@ -545,3 +550,97 @@ def mirror(text: str) -> str:
     t = text.replace('[0]', '[@F]').replace('[-1]', '[0]').replace('[@F]', '[-1]')
     t = t.replace('.location.end - 1', '.location.@S').replace('.location.start', '.location.end - 1').replace('.location.@S', '.location.start')
     return t
+
+
+def cds_start_loops(chk, repo, rid):
+    """C11.m: get_cds_start_index walks the exons in transcript order and returns (bases of the exons in front of the CDS 5' end)
+    + (offset of that end inside its exon) + frame - the transcript index of the first CDS base, as get_transcript_index
+    defines it (C11.i).  Decided from the affine summary of one loop iteration (E8) and the conditions of its paths."""
+    from sa import sem, loops
+    chk.rule(rid, 'R-AFFINE-EQV (loops): get_cds_start_index = exon lengths in front of the CDS 5\' end + offset inside its exon + frame, both strands', 7)
+    f = repo.func('gtf.TranscriptAnnotationModel:TranscriptAnnotationModel.get_cds_start_index')
+    chk.uses(f)
+    nf = sem.nf(repo, f)
+    rets = [n for n in ast.walk(nf) if isinstance(n, ast.Return)]
+    fors = [n for n in ast.walk(nf) if isinstance(n, ast.For) and isinstance(n.target, ast.Name)]
+    loop_facts = sem.facts_at_loops(nf)
+    by_strand = {}
+    for l in fors:
+        fx = loop_facts.get(id(l))
+        lits = sem.sure_literals(fx) if fx is not None else set()
+        s_ = None
+        for t, v in lits:
+            m = re.match(r'^(-?1) == self\.transcript\.strand$', t)
+            if m and v:
+                s_ = int(m.group(1))
+        if s_ is None and any(re.match(r'^1 == self\.transcript\.strand$', t) and not v for t, v in lits):
+            s_ = -1
+        by_strand.setdefault(s_, []).append(l)
+    for strand in (1, -1):
+        sg = f"strand {strand:+d}"
+        ls = by_strand.get(strand, [])
+        if len(ls) != 1:
+            chk.undecided(rid, f"{sg}: exon loop", f.where, f"{len(ls)} loops found under strand == {strand}", key=f"{f.qual}::loop::{strand:+d}", fn=f.qual)
+            continue
+        lp = ls[0]
+        E = lp.target.id
+        want_iter = 'self.exon' if strand == 1 else 'reversed(self.exon)'
+        chk.ob(rid, f"{sg}: exons are walked in transcript order", repo.loc(f, lp), unparse(lp.iter) == want_iter,
+               f"the loop iterates `{unparse(lp.iter)}`, transcript order on {sg} is `{want_iter}`", key=f"{f.qual}::order::{strand:+d}", fn=f.qual)
+        accs = sorted({unparse(n.target) for n in ast.walk(lp) if isinstance(n, ast.AugAssign) and isinstance(n.target, ast.Name)})
+        if len(accs) != 1:
+            chk.undecided(rid, f"{sg}: accumulator", repo.loc(f, lp), f"accumulators {accs}", key=f"{f.qual}::acc::{strand:+d}", fn=f.qual)
+            continue
+        acc = accs[0]
+        P = 'self.cds[0].location.start' if strand == 1 else 'self.cds[-1].location.end'
+        Pa, Es, Ee = Aff.sym(P), Aff.sym(f'{E}.location.start'), Aff.sym(f'{E}.location.end')
+        want_break = (Pa - Es) if strand == 1 else (Ee - Pa)
+        inside = (f'{P} in {E}', True)
+        at_end = (f'{P} == {E}.location.end', True)
+        ps = loops.iteration_paths(lp, strand, [acc], canon=lambda t: t)
+        chk.paths += len(ps)
+        ok_next = ok_brk = True
+        det = []
+        n_next = n_brk = 0
+        for p in ps:
+            conds = set(p.p.conds)
+            d = p.delta.get(acc)
+            if p.end == 'next':
+                n_next += 1
+                good = d == Aff.sym(f'len({E})') and (inside[0], False) in conds and (strand == 1 or (at_end[0], False) in conds)
+                if not good:
+                    ok_next = False
+                    det.append(f"an exon is passed over with {acc} += {d!r} under {sorted(conds)}")
+            elif p.end == 'break':
+                n_brk += 1
+                good = d == want_break and (inside in conds or (strand == -1 and at_end in conds))
+                if not good:
+                    ok_brk = False
+                    det.append(f"the walk stops with {acc} += {d!r} under {sorted(conds)}")
+            else:
+                ok_brk = False
+                det.append(f"a path ends in {p.end}")
+        chk.ob(rid, f"{sg}: an exon in front of the CDS end adds its full length", repo.loc(f, lp), ok_next and n_next >= 1,
+               f"{sg}: " + '; '.join(det[:2]) + f" (expected += len({E}) exactly when {P} is not in the exon)", key=f"{f.qual}::pass::{strand:+d}", fn=f.qual)
+        chk.ob(rid, f"{sg}: the exon holding the CDS end adds the offset inside it and ends the walk", repo.loc(f, lp), ok_brk and n_brk >= 1,
+               f"{sg}: " + '; '.join(det[:2]) + f" (expected += {want_break!r} and break exactly when {P} lies in the exon)", key=f"{f.qual}::stop::{strand:+d}", fn=f.qual)
+    # initial value and result
+    ch = sem.block_chains(nf)
+    ok_ret = len(rets) == 1
+    det = ''
+    if ok_ret:
+        v = rets[0].value
+        ok_ret = isinstance(v, ast.BinOp) and isinstance(v.op, ast.Add) and all(isinstance(x, ast.Name) for x in (v.left, v.right))
+        if ok_ret:
+            inits = {n.id: sem.nearest_def(nf, [l for l in fors][0], n.id, ch) for n in (v.left, v.right)}
+            accn = [k for k, d_ in inits.items() if isinstance(d_, ast.Constant) and d_.value == 0]
+            frames = {}
+            for n in ast.walk(nf):
+                if isinstance(n, ast.Assign) and len(n.targets) == 1 and isinstance(n.targets[0], ast.Name) and n.targets[0].id in (v.left.id, v.right.id) \
+                        and n.targets[0].id not in accn:
+                    frames.setdefault(n.targets[0].id, []).append(unparse(n.value))
+            fr = sorted(x for vs in frames.values() for x in vs)
+            ok_ret = len(accn) == 1 and fr == sorted(['self.cds[0].frame', 'self.cds[-1].frame or 0'])
+            det = f"returns {unparse(v)} with start value(s) {[(k, unparse(d_) if d_ is not None else None) for k, d_ in inits.items()]} and frame terms {fr}"
+    chk.ob(rid, 'result = accumulated offset (from 0) + frame of the first CDS feature in transcript order', f.where, ok_ret,
+           f"get_cds_start_index {det or 'does not return accumulator + frame'}", key=f"{f.qual}::result", fn=f.qual)
